@@ -189,20 +189,88 @@ class DepthDataNative(Contract):
     symbolic = False
     has_native = True
     props = ("C18",)
-    bounded_scope = "depth logs and interval logs added in one or several add_data calls with unsorted, overlapping and repeated depths (<= 4 depths per log, <= 3 logs): every vertex sits at desurvey(depth), every interval cell joins its from/to positions, every value stays attached to its depth"
+    bounded_scope = ("sequences of 1-4 add_data calls mixing depth logs and interval logs on one hole (unsorted, repeated, nearly equal depths; identical, nested, overlapping, "
+                     "contiguous and disjoint intervals; logs added together or one by one): after every call each vertex with a depth sits at the reference position of that depth, "
+                     "each interval cell joins the positions of its from and to depths, each distinct interval is listed once and every value stays attached to its depth or interval "
+                     "(24 fixed sequences + 40 seeded in the quick tier, 600 in the thorough tier)")
+
+    D = lambda name, depths: ("depth", name, depths)
+    I_ = lambda name, ft: ("interval", name, ft)
+    FIXED = [
+        [("depth", "a", [10.0, 20.0, 30.0]), ("depth", "b", [20.0, 30.0, 40.0])],
+        [("depth", "a", [30.0, 40.0]), ("depth", "b", [15.0, 25.0]), ("depth", "c", [40.0, 15.0])],
+        [("depth", "a", [10.0, 20.0, 30.0, 40.0]), ("depth", "b", [25.0, 20.0, 15.0, 40.0])],
+        [("depth", "a", [5.0]), ("depth", "b", [5.0, 2.5])],
+        [("interval", "i", [[5.0, 10.0], [10.0, 20.0]]), ("interval", "j", [[10.0, 20.0], [30.0, 35.0]])],
+        [("interval", "i", [[30.0, 35.0], [5.0, 10.0]]), ("interval", "j", [[5.0, 10.0], [12.0, 14.0]])],
+        # intervals first, then depth samples (forces a re-sort of vertices with cells present)
+        [("interval", "i", [[10.0, 20.0], [20.0, 30.0], [60.0, 70.0]]), ("depth", "a", [25.0, 5.0])],
+        [("interval", "i", [[10.0, 20.0], [20.0, 30.0]]), ("depth", "a", [45.0, 5.0, 15.0]), ("depth", "b", [1.0])],
+        [("depth", "a", [25.0, 5.0]), ("interval", "i", [[10.0, 20.0], [60.0, 70.0]]), ("depth", "b", [65.0, 2.0])],
+        # nested / overlapping intervals sharing one end with an existing interval
+        [("interval", "i", [[10.0, 20.0], [60.0, 70.0]]), ("interval", "j", [[10.0, 15.0], [65.0, 70.0], [10.0, 20.0]])],
+        [("interval", "i", [[10.0, 20.0], [20.0, 30.0], [60.0, 80.0]]), ("interval", "j", [[15.0, 20.0], [60.0, 70.0]]), ("depth", "a", [12.0])],
+        [("interval", "i", [[0.0, 10.0]]), ("interval", "j", [[0.0, 5.0], [5.0, 10.0], [0.0, 10.0]])],
+    ]
 
     def native_cases(self, tier, rng):
-        logs = [
-            [("a", [10.0, 20.0, 30.0]), ("b", [20.0, 30.0, 40.0])],
-            [("a", [30.0, 40.0]), ("b", [15.0, 25.0]), ("c", [40.0, 15.0])],
-            [("a", [10.0, 20.0, 30.0, 40.0]), ("b", [25.0, 20.0, 15.0, 40.0])],
-            [("a", [5.0]), ("b", [5.0, 2.5])],
-        ]
-        for lg in logs:
+        for steps in self.FIXED:
             for together in (True, False):
-                yield {"logs": lg, "together": together}
-        yield {"intervals": [("i", [[5.0, 10.0], [10.0, 20.0]]), ("j", [[10.0, 20.0], [30.0, 35.0]])], "together": True}
-        yield {"intervals": [("i", [[30.0, 35.0], [5.0, 10.0]]), ("j", [[5.0, 10.0], [12.0, 14.0]])], "together": False}
+                yield {"steps": steps, "together": together}
+        grid = [0.0, 5.0, 10.0, 15.0, 20.0, 30.0, 60.0, 65.0, 70.0]
+        for _ in range(40 if tier == "quick" else 600):
+            steps = []
+            for k in range(rng.randint(2, 4)):
+                if rng.random() < 0.5:
+                    steps.append(("depth", f"d{k}", [rng.choice(grid) + rng.choice([0.0, 1.0, 2.5]) for _ in range(rng.randint(1, 3))]))
+                else:
+                    ft = []
+                    for _ in range(rng.randint(1, 3)):
+                        a, b = sorted(rng.sample(grid, 2))
+                        ft.append([a, b])
+                    steps.append(("interval", f"i{k}", ft))
+            yield {"steps": steps, "together": False}
+
+    @staticmethod
+    def _check(dh, collar, sv, written_d, written_i, case, where):
+        verts = np.asarray(dh.vertices) if dh.vertices is not None else np.zeros((0, 3))
+        if dh.get_data("DEPTH"):
+            depth_vals = np.asarray(dh.get_data("DEPTH")[0].values, dtype=float)
+            has = np.isfinite(depth_vals)
+            if len(depth_vals) != len(verts):
+                return f"{where}: {len(depth_vals)} depths for {len(verts)} vertices ({case})"
+            if has.any() and not np.allclose(verts[has], ref_path(collar, sv, depth_vals[has]), atol=1e-4):
+                return f"{where}: vertices are not at the positions of their depths {depth_vals.tolist()} ({case})"
+            for name, table in written_d.items():
+                v = np.asarray(dh.get_data(name)[0].values, dtype=float)
+                for dep, val in table.items():
+                    hit = np.where(np.isclose(depth_vals, dep, atol=1e-3))[0]
+                    if len(hit) != 1 or not np.isclose(v[hit[0]], val):
+                        got = None if len(hit) != 1 else v[hit[0]]
+                        return f"{where}: value {val} added at depth {dep} for '{name}' is found as {got} (depths {depth_vals.tolist()}, values {v.tolist()}) ({case})"
+        elif written_d:
+            return f"{where}: depth data were added but the hole has no DEPTH channel ({case})"
+        if written_i:
+            if not dh.get_data("FROM") or not dh.get_data("TO") or dh.cells is None:
+                return f"{where}: interval data were added but FROM/TO/cells are missing ({case})"
+            frm = np.asarray(dh.get_data("FROM")[0].values, dtype=float)
+            to = np.asarray(dh.get_data("TO")[0].values, dtype=float)
+            cells = np.asarray(dh.cells).astype(int)
+            if len(cells) != len(frm) or len(frm) != len(to):
+                return f"{where}: {len(cells)} cells for {len(frm)} from and {len(to)} to depths ({case})"
+            if cells.size and (cells.max() >= len(verts)):
+                return f"{where}: cells reference vertex {cells.max()} of {len(verts)} ({case})"
+            if not np.allclose(verts[cells[:, 0]], ref_path(collar, sv, frm), atol=1e-4) or not np.allclose(verts[cells[:, 1]], ref_path(collar, sv, to), atol=1e-4):
+                return f"{where}: interval cells {cells.tolist()} do not join the positions of their from/to depths {frm.tolist()} / {to.tolist()} ({case})"
+            for name, table in written_i.items():
+                v = np.asarray(dh.get_data(name)[0].values, dtype=float)
+                for (a, b), val in table.items():
+                    hit = np.where(np.isclose(frm, a, atol=1e-3) & np.isclose(to, b, atol=1e-3))[0]
+                    if len(hit) != 1:
+                        return f"{where}: interval {(a, b)} of '{name}' is listed {len(hit)} times in FROM/TO {frm.tolist()} / {to.tolist()} ({case})"
+                    if len(v) <= hit[0] or not np.isclose(v[hit[0]], val):
+                        return f"{where}: value {val} added on interval {(a, b)} for '{name}' is not attached to it (values {v.tolist()}) ({case})"
+        return None
 
     def native_check(self, case):
         from geoh5py.objects import Drillhole
@@ -210,54 +278,37 @@ class DepthDataNative(Contract):
 
         sv = np.array([[5.0, 30.0, -80.0], [40.0, 45.0, -60.0], [90.0, 120.0, -45.0]])
         collar = [10.0, 20.0, 30.0]
+        steps = [tuple(s_) for s_ in case["steps"]]
         with Workspace() as ws:
             dh = Drillhole.create(ws, collar=np.array(collar), surveys=sv)
-            written = {}
-            if "logs" in case:
-                spec = {}
-                for k, (name, depths) in enumerate(case["logs"]):
-                    vals = np.array([1000.0 * (k + 1) + d for d in depths])
-                    written[name] = dict(zip(depths, vals))
-                    spec[name] = {"depth": np.array(depths), "values": vals}
-                if case["together"]:
-                    dh.add_data(spec)
+            written_d, written_i = {}, {}
+            specs = []
+            for k, (kind, name, arg) in enumerate(steps):
+                if kind == "depth":
+                    uniq = list(dict.fromkeys(arg))
+                    vals = np.array([1000.0 * (k + 1) + d for d in uniq])
+                    written_d[name] = dict(zip(uniq, vals))
+                    specs.append((kind, {name: {"depth": np.array(uniq), "values": vals}}))
                 else:
-                    for name, s in spec.items():
-                        dh.add_data({name: s})
-                depth_vals = np.asarray(dh.get_data("DEPTH")[0].values, dtype=float)
-                verts = np.asarray(dh.vertices)
-                exp = ref_path(collar, sv, depth_vals)
-                if not np.allclose(verts, exp, atol=1e-4):
-                    return f"vertices are not at the positions of their depths {depth_vals.tolist()} ({case})"
-                for name, table in written.items():
-                    v = np.asarray(dh.get_data(name)[0].values, dtype=float)
-                    for dep, val in table.items():
-                        hit = np.where(np.isclose(depth_vals, dep, atol=1e-3))[0]
-                        if len(hit) != 1 or not np.isclose(v[hit[0]], val):
-                            got = None if len(hit) != 1 else v[hit[0]]
-                            return f"value {val} added at depth {dep} for '{name}' is found as {got} (depths {depth_vals.tolist()}, values {v.tolist()}) ({case})"
-            else:
-                spec = {}
-                for k, (name, ft) in enumerate(case["intervals"]):
-                    vals = np.array([1000.0 * (k + 1) + a for a, b in ft])
-                    written[name] = {tuple(x): v for x, v in zip(ft, vals)}
-                    spec[name] = {"from-to": np.array(ft), "values": vals}
-                if case["together"]:
-                    dh.add_data(spec)
-                else:
-                    for name, s in spec.items():
-                        dh.add_data({name: s})
-                frm = np.asarray(dh.get_data("FROM")[0].values, dtype=float)
-                to = np.asarray(dh.get_data("TO")[0].values, dtype=float)
-                cells, verts = np.asarray(dh.cells), np.asarray(dh.vertices)
-                if not np.allclose(verts[cells[:, 0]], ref_path(collar, sv, frm), atol=1e-4) or not np.allclose(verts[cells[:, 1]], ref_path(collar, sv, to), atol=1e-4):
-                    return f"interval cells do not join the positions of their from/to depths ({case})"
-                for name, table in written.items():
-                    v = np.asarray(dh.get_data(name)[0].values, dtype=float)
-                    for (a, b), val in table.items():
-                        hit = np.where(np.isclose(frm, a, atol=1e-3) & np.isclose(to, b, atol=1e-3))[0]
-                        if len(hit) != 1 or not np.isclose(v[hit[0]], val):
-                            return f"value {val} added on interval {(a, b)} for '{name}' is not attached to it ({case})"
+                    uniq = list(dict.fromkeys(tuple(x) for x in arg))
+                    vals = np.array([1000.0 * (k + 1) + a + b / 100.0 for a, b in uniq])
+                    written_i[name] = {x: v for x, v in zip(uniq, vals)}
+                    specs.append((kind, {name: {"from-to": np.array([list(x) for x in uniq]), "values": vals}}))
+            kinds = {k for k, _ in specs}
+            if case.get("together") and len(kinds) == 1:
+                merged = {}
+                for _, sp in specs:
+                    merged.update(sp)
+                dh.add_data(merged)
+                return self._check(dh, collar, sv, written_d, written_i, case, "after one add_data call")
+            done_d, done_i = {}, {}
+            for n_, (kind, sp) in enumerate(specs):
+                dh.add_data(sp)
+                name = next(iter(sp))
+                (done_d if kind == "depth" else done_i)[name] = (written_d if kind == "depth" else written_i)[name]
+                bad = self._check(dh, collar, sv, done_d, done_i, case, f"after call {n_ + 1}")
+                if bad:
+                    return bad
         return None
 
 
